@@ -328,4 +328,314 @@ theorem wfFull_of_PHwf (p : PH) (h : PHwf p) : wfFull p.full := by
   · subst hc; decide
   · exact h.rest c hc
 
+-- (section continues)
+
+/-! ### `c15_full`: the iterative loop equals the single-pass expansion -/
+
+theorem split_at_first (x : Char) (a b c d : S) (ha : x ∉ a) (hc : x ∉ c) (h : a ++ x :: b = c ++ x :: d) :
+    a = c ∧ b = d := by
+  induction a generalizing c with
+  | nil =>
+    cases c with
+    | nil => simp at h; exact ⟨rfl, h⟩
+    | cons y ys =>
+      simp at h
+      exact absurd (by simp [h.1]) hc
+  | cons z zs ih =>
+    cases c with
+    | nil =>
+      simp at h
+      exact absurd (by simp [h.1]) ha
+    | cons y ys =>
+      simp at h
+      obtain ⟨h1, h2⟩ := ih ys (fun hz => ha (List.mem_cons_of_mem _ hz)) (fun hy => hc (List.mem_cons_of_mem _ hy)) h.2
+      exact ⟨by rw [h.1, h1], h2⟩
+
+theorem PH_eq_of_full (p q : PH) (hp : PHwf p) (hq : PHwf q) (h : p.full = q.full) : p = q := by
+  have hf := h
+  rw [hp.full, hq.full] at hf
+  simp only [List.cons.injEq, true_and, List.append_assoc, List.singleton_append] at hf
+  obtain ⟨ht, hr⟩ := split_at_first ':' p.typ (p.rest ++ ['}']) q.typ (q.rest ++ ['}'])
+    (typ_braceFree p.typ hp.typ).2 (typ_braceFree q.typ hq.typ).2 hf
+  have hr' : p.rest = q.rest := List.append_cancel_right hr
+  cases p; cases q; simp_all
+
+/-- cells that remember which placeholder an untouched text belongs to -/
+inductive Cell2 where
+  | lit (c : Char)
+  | raw (p : PH)
+  | val (v : S)
+
+def Cell2.toCell : Cell2 → Cell
+  | .lit c => .lit c
+  | .raw p => .raw p.full
+  | .val v => .val v
+
+def render2 (cs : List Cell2) : S := renderC (cs.map Cell2.toCell)
+
+def substCell2 (q : PH) (r : S) : Cell2 → Cell2
+  | .raw p => if p = q then .val r else .raw p
+  | c => c
+
+def WFCell2 : Cell2 → Prop
+  | .lit c => c ≠ '{'
+  | .raw p => PHwf p
+  | .val v => ∀ c ∈ v, c ≠ '{'
+
+theorem WFCell_of2 (c : Cell2) (h : WFCell2 c) : WFCell c.toCell := by
+  cases c with
+  | lit c => exact h
+  | raw p => exact wfFull_of_PHwf p h
+  | val v => exact h
+
+theorem subst2_toCell (q : PH) (hq : PHwf q) (r : S) (c : Cell2) (hc : WFCell2 c) :
+    (substCell2 q r c).toCell = substCell q.full r c.toCell := by
+  cases c with
+  | lit c => rfl
+  | val v => rfl
+  | raw p =>
+    simp only [substCell2, Cell2.toCell, substCell]
+    by_cases hpq : p = q
+    · subst hpq; simp [Cell2.toCell]
+    · have : p.full ≠ q.full := fun hf => hpq (PH_eq_of_full p q hc hq hf)
+      simp [hpq, this, Cell2.toCell]
+
+/-- one iteration of the loop on a rendered cell list -/
+theorem replaceAll_render2 (q : PH) (hq : PHwf q) (r : S) (cells : List Cell2) (hwf : ∀ c ∈ cells, WFCell2 c) :
+    replaceAllF q.full r (render2 cells).length (render2 cells) = render2 (cells.map (substCell2 q r)) := by
+  unfold render2
+  rw [replaceAllF_cells q.full r (wfFull_of_PHwf q hq) (cells.map Cell2.toCell)
+    (by intro c hc; obtain ⟨c2, hc2, rfl⟩ := List.mem_map.1 hc; exact WFCell_of2 c2 (hwf c2 hc2)) _ (Nat.le_refl _)]
+  congr 1
+  rw [List.map_map, List.map_map]
+  apply List.map_congr_left
+  intro c hc
+  simp [subst2_toCell q hq r c (hwf c hc)]
+
 end SciVerif.Str
+
+namespace SciVerif.Fmt
+open SciVerif.Str
+
+/-- the loop shared by `formatCommand` and `SetOut` path formatting, for an arbitrary replacement function -/
+def loopR (R : PH → Option S) : List PH → S → Option S
+  | [], s => some s
+  | ph :: rest, s =>
+    match R ph with
+    | none => none
+    | some r => loopR R rest (replaceAllT ph.full r s)
+
+/-- single-pass expansion of a token list, for an arbitrary replacement function -/
+def specR (R : PH → Option S) : List Tok → Option S
+  | [] => some []
+  | .lit c :: rest => (specR R rest).map (c :: ·)
+  | .ph p :: rest =>
+    match R p, specR R rest with
+    | some r, some tl => some (r ++ tl)
+    | _, _ => none
+
+theorem fmtLoop_eq_loopR (env : Env) (phs : List PH) (s : S) : fmtLoop env phs s = loopR (replacement env) phs s := by
+  induction phs generalizing s with
+  | nil => rfl
+  | cons ph rest ih => simp only [fmtLoop, loopR]; cases replacement env ph <;> simp [ih]
+
+theorem pathLoop_eq_loopR (env : PathEnv) (phs : List PH) (s : S) : pathLoop env phs s = loopR (pathReplacement env) phs s := by
+  induction phs generalizing s with
+  | nil => rfl
+  | cons ph rest ih => simp only [pathLoop, loopR]; cases pathReplacement env ph <;> simp [ih]
+
+theorem fmtSpec_eq_specR (env : Env) (toks : List Tok) : fmtSpec env toks = specR (replacement env) toks := by
+  induction toks with
+  | nil => rfl
+  | cons t rest ih =>
+    cases t with
+    | lit c => simp only [fmtSpec, specR, ih]
+    | ph p => simp only [fmtSpec, specR, ih]; cases replacement env p <;> cases specR (replacement env) rest <;> rfl
+
+/-- single-pass expansion on cells -/
+def specC (R : PH → Option S) : List Cell2 → Option S
+  | [] => some []
+  | .lit c :: rest => (specC R rest).map (c :: ·)
+  | .val v :: rest => (specC R rest).map (v ++ ·)
+  | .raw p :: rest =>
+    match R p, specC R rest with
+    | some r, some tl => some (r ++ tl)
+    | _, _ => none
+
+theorem render2_cons_lit (c : Char) (rest : List Cell2) : render2 (.lit c :: rest) = c :: render2 rest := rfl
+theorem render2_cons_val (v : S) (rest : List Cell2) : render2 (.val v :: rest) = v ++ render2 rest := rfl
+theorem render2_cons_raw (p : PH) (rest : List Cell2) : render2 (.raw p :: rest) = p.full ++ render2 rest := rfl
+
+theorem specC_noraw (R : PH → Option S) (cells : List Cell2) (h : ∀ p, Cell2.raw p ∉ cells) :
+    specC R cells = some (render2 cells) := by
+  induction cells with
+  | nil => rfl
+  | cons c rest ih =>
+    have hr : ∀ p, Cell2.raw p ∉ rest := fun p hp => h p (List.mem_cons_of_mem _ hp)
+    cases c with
+    | lit c => simp [specC, ih hr, render2_cons_lit]
+    | val v => simp [specC, ih hr, render2_cons_val]
+    | raw p => exact absurd (by simp) (h p)
+
+theorem specC_raw_none (R : PH → Option S) (cells : List Cell2) (p : PH) (hp : Cell2.raw p ∈ cells)
+    (hn : R p = none) : specC R cells = none := by
+  induction cells with
+  | nil => simp at hp
+  | cons c rest ih =>
+    rcases List.mem_cons.1 hp with h | h
+    · subst h; simp [specC, hn]
+    · cases c with
+      | lit c => simp [specC, ih h]
+      | val v => simp [specC, ih h]
+      | raw q =>
+        simp only [specC, ih h]
+        split <;> simp_all
+
+theorem specC_subst (R : PH → Option S) (q : PH) (r : S) (hr : R q = some r) (cells : List Cell2) :
+    specC R (cells.map (substCell2 q r)) = specC R cells := by
+  induction cells with
+  | nil => rfl
+  | cons c rest ih =>
+    cases c with
+    | lit c => simp [specC, substCell2, ih]
+    | val v => simp [specC, substCell2, ih]
+    | raw p =>
+      simp only [List.map_cons, substCell2]
+      by_cases hpq : p = q
+      · subst hpq
+        simp only [if_true, specC, ih, hr]
+        cases specC R rest <;> simp
+      · simp only [hpq, if_false, specC, ih]
+
+theorem replaceAllT_eq (pat rep s : S) (hp : pat ≠ []) : replaceAllT pat rep s = replaceAllF pat rep s.length s := by
+  simp [replaceAllT, hp, replaceAll]
+
+theorem PHwf_full_ne (q : PH) (hq : PHwf q) : q.full ≠ [] := by rw [hq.full]; simp
+
+/-- loop invariant of `formatCommand`: on a rendered cell list whose untouched placeholders are all
+still to come, the remaining iterations compute the single-pass expansion -/
+theorem fmtLoop_cells (R : PH → Option S) (phs : List PH) :
+    ∀ cells : List Cell2, (∀ c ∈ cells, WFCell2 c) →
+      (∀ p, Cell2.raw p ∈ cells → p ∈ phs) →
+      (∀ q ∈ phs, PHwf q ∧ (∀ r, R q = some r → ∀ c ∈ r, c ≠ '{') ∧
+        (Cell2.raw q ∈ cells ∨ (R q).isSome = true)) →
+      loopR R phs (render2 cells) = specC R cells := by
+  induction phs with
+  | nil =>
+    intro cells _ hraw _
+    simp only [loopR]
+    rw [specC_noraw R cells (fun p hp => by simpa using hraw p hp)]
+  | cons ph rest ih =>
+    intro cells hwf hraw hq
+    obtain ⟨hphwf, hphval, hphin⟩ := hq ph (by simp)
+    simp only [loopR]
+    cases hrep : R ph with
+    | none =>
+      simp only
+      rcases hphin with h | h
+      · exact (specC_raw_none R cells ph h hrep).symm
+      · simp [hrep] at h
+    | some r =>
+      simp only
+      rw [replaceAllT_eq _ _ _ (PHwf_full_ne ph hphwf), replaceAll_render2 ph hphwf r cells hwf,
+        ih (cells.map (substCell2 ph r)) ?_ ?_ ?_, specC_subst R ph r hrep]
+      · intro c hc
+        obtain ⟨c0, hc0, rfl⟩ := List.mem_map.1 hc
+        have h0 := hwf c0 hc0
+        cases c0 with
+        | lit c => exact h0
+        | val v => exact h0
+        | raw p =>
+          simp only [substCell2]
+          split
+          · exact hphval r hrep
+          · exact h0
+      · intro p hp
+        obtain ⟨c0, hc0, hc⟩ := List.mem_map.1 hp
+        cases c0 with
+        | lit c => simp [substCell2] at hc
+        | val v => simp [substCell2] at hc
+        | raw p0 =>
+          simp only [substCell2] at hc
+          split at hc
+          · simp at hc
+          · rename_i hne
+            simp at hc; subst hc
+            rcases List.mem_cons.1 (hraw p0 hc0) with h | h
+            · exact absurd h hne
+            · exact h
+      · intro q hqr
+        obtain ⟨h1, h2, h3⟩ := hq q (List.mem_cons_of_mem _ hqr)
+        refine ⟨h1, h2, ?_⟩
+        rcases h3 with h | h
+        · by_cases hqp : q = ph
+          · right; rw [hqp, hrep]; rfl
+          · left
+            exact List.mem_map.2 ⟨.raw q, h, by simp [substCell2, hqp]⟩
+        · exact Or.inr h
+
+def tokCell : Tok → Cell2
+  | .lit c => .lit c
+  | .ph p => .raw p
+
+theorem render2_tokCell (toks : List Tok) : render2 (toks.map tokCell) = renderT toks := by
+  induction toks with
+  | nil => rfl
+  | cons t rest ih =>
+    cases t with
+    | lit c => simp only [List.map_cons, tokCell, render2_cons_lit, renderT, ih]
+    | ph p => simp only [List.map_cons, tokCell, render2_cons_raw, renderT, ih]
+
+theorem specC_tokCell (R : PH → Option S) (toks : List Tok) : specC R (toks.map tokCell) = specR R toks := by
+  induction toks with
+  | nil => rfl
+  | cons t rest ih =>
+    cases t with
+    | lit c => simp only [List.map_cons, tokCell, specC, specR, ih]
+    | ph p =>
+      simp only [List.map_cons, tokCell, specC, specR, ih]
+
+theorem raw_mem_tokCell (toks : List Tok) (p : PH) : Cell2.raw p ∈ toks.map tokCell ↔ Tok.ph p ∈ toks := by
+  induction toks with
+  | nil => simp
+  | cons t rest ih =>
+    cases t with
+    | lit c => simp [tokCell, ih]
+    | ph q => simp [tokCell, ih]
+
+theorem mem_placeholders (cmd : S) (p : PH) : p ∈ placeholders cmd ↔ Tok.ph p ∈ tokenize cmd := by
+  unfold placeholders
+  rw [List.mem_filterMap]
+  constructor
+  · rintro ⟨t, ht, h⟩
+    cases t with
+    | lit c => simp at h
+    | ph q => simp at h; subst h; exact ht
+  · intro h; exact ⟨.ph p, h, rfl⟩
+
+/-- the loop on the placeholders of a pattern equals the single-pass expansion of its tokens, when
+literal chunks and substituted values are brace-free -/
+theorem loopR_full (R : PH → Option S) (cmd : S)
+    (hlit : ∀ t ∈ tokenize cmd, match t with | .lit c => notBrace c = true | .ph _ => True)
+    (hval : ∀ ph ∈ placeholders cmd, ∀ r, R ph = some r → r.all notBrace = true) :
+    loopR R (placeholders cmd) cmd = specR R (tokenize cmd) := by
+  have hrender : render2 ((tokenize cmd).map tokCell) = cmd := by
+    rw [render2_tokCell]; exact renderT_tokenizeF cmd.length cmd (Nat.le_refl _)
+  have hnb : ∀ c : Char, notBrace c = true → c ≠ '{' := by
+    intro c hc h; subst h; simp [notBrace] at hc
+  have h := fmtLoop_cells R (placeholders cmd) ((tokenize cmd).map tokCell) ?_ ?_ ?_
+  · rw [hrender, specC_tokCell] at h; exact h
+  · intro c hc
+    obtain ⟨t, ht, rfl⟩ := List.mem_map.1 hc
+    cases t with
+    | lit ch => exact hnb ch (hlit _ ht)
+    | ph p => exact tokenizeF_wf _ _ p ht
+  · intro p hp
+    exact (mem_placeholders cmd p).2 ((raw_mem_tokCell _ p).1 hp)
+  · intro q hq
+    have hq' := (mem_placeholders cmd q).1 hq
+    refine ⟨tokenizeF_wf _ _ q hq', ?_, Or.inl ((raw_mem_tokCell _ q).2 hq')⟩
+    intro r hr c hc
+    exact hnb c (List.all_eq_true.1 (hval q hq r hr) c hc)
+
+end SciVerif.Fmt
